@@ -308,3 +308,27 @@ PROPS["C17"] = {
         "stdout and null have no wire payload and are not part of this property",
     ],
 }
+
+PROPS["C15"] = {
+    "pkg": "c15", "level": "exploration",
+    "jobs": {
+        "quick": [
+            {"name": "probes", "kind": "plain", "run": "^TestProbe"},
+            {"name": "delivery", "run": "^TestForwarderDelivery$", "checks": 480, "shards": 8},
+            {"name": "faults", "run": "^TestForwarderDeliveryFaults$", "checks": 48, "shards": 16},
+        ],
+        "thorough": [
+            {"name": "probes", "kind": "plain", "run": "^TestProbe"},
+            {"name": "delivery", "run": "^TestForwarderDelivery$", "checks": 48000, "shards": 8, "timeout": 1700},
+            {"name": "delivery-race", "run": "^TestForwarderDelivery$", "checks": 4000, "shards": 4, "race": True, "timeout": 1700},
+            {"name": "faults", "run": "^TestForwarderDeliveryFaults$", "checks": 1600, "shards": 16, "timeout": 1700},
+        ],
+    },
+    "assumptions": [
+        "flushes are not overlapped with each other: the next trigger is issued only after all data dispatched before the previous trigger reached a final state; a body is attributed to the last trigger issued before its first attempt; only dispatches overlap flushes",
+        "retry sleeps are real time (0.25-1.1 s each): scripted failures are limited to two per body and the retry window is either disabled (-1) or 2 s",
+        "dynamic headers are combined with the timer-driven mode only (README documents them as unsupported with the manual flush coordinator)",
+        "datapoints are globally unique so that duplication between bodies is observable; gauges are checked for presence only",
+        "strings are valid UTF-8 in the main generator; the non-UTF-8 case is a recorded finding re-checked by a probe",
+    ],
+}
